@@ -12,6 +12,7 @@ import (
 	"math/rand"
 	"os"
 	"path/filepath"
+	"sort"
 	"testing"
 
 	"github.com/gagliardetto/solana-go"
@@ -206,6 +207,58 @@ func TestVerifC03Address(t *testing.T) {
 				}
 			}
 			out.Emit(o)
+			// continuation pages: the same address with `before` set to each archived signature of the loaded epochs (an
+			// honest client pages with the last signature it was given; for an address without history every page is
+			// empty whatever `before` names - in particular when it names a signature of the aliased address's history).
+			// One record per address: the union of everything these pages returned.
+			if isAlias[k] || k%2 == 0 {
+				ob := c07JObs{Kind: "json", Case: 0, Acct: 0, Hist: [][]int{}, Limit: 1000, Result: []int{}, Alias: isAlias[k], Whist: [][]string{}, Wresult: []string{}, Loaded: loadedNow}
+				var befores []string
+				for sg := range l4.built.TxBySig {
+					if pass == 1 {
+						befores = append(befores, sg.String())
+					}
+				}
+				var b3 []string
+				for sg := range l.built.TxBySig {
+					b3 = append(b3, sg.String())
+				}
+				sort.Strings(b3)
+				if len(b3) > 1500 {
+					b3 = b3[:1500]
+				}
+				sort.Strings(befores)
+				befores = append(befores, b3...)
+				seen := map[int]bool{}
+				for _, bs := range befores {
+					_, body, p := vCall(handler, fmt.Sprintf(`{"jsonrpc":"2.0","id":1,"method":"getSignaturesForAddress","params":["%s",{"limit":1000,"before":"%s"}]}`, pk, bs))
+					var resp struct {
+						Result []map[string]any `json:"result"`
+					}
+					if p != nil {
+						ob.Err = fmt.Sprint(p)
+						continue
+					}
+					if json.Unmarshal([]byte(body), &resp) != nil {
+						continue
+					}
+					for _, r := range resp.Result {
+						sgs, _ := r["signature"].(string)
+						id, ok := sigID[sgs]
+						if !ok {
+							id = -1
+						}
+						if !seen[id] {
+							seen[id] = true
+							ob.Result = append(ob.Result, id)
+						}
+					}
+				}
+				if len(ob.Result) > 0 {
+					ob.Err = "returned by continuation pages (`before` = an archived signature) " + ob.Err
+				}
+				out.Emit(ob)
+			}
 		}
 	}
 	t.Logf("aliasing addresses found: %d + %d", len(aliases), len(aliases4))
